@@ -19,7 +19,7 @@ const redirectURI = "https://rp.example/cb"
 
 func (e *Eng) drawScopes(mustOpenID bool, label string) []string {
 	var s []string
-	if mustOpenID || rapid.IntRange(0, 2).Draw(e.t, label+"-openid") == 0 {
+	if (mustOpenID || rapid.IntRange(0, 2).Draw(e.t, label+"-openid") == 0) && !e.w.NoOIDC() {
 		s = append(s, "openid")
 	}
 	if rapid.IntRange(0, 3).Draw(e.t, label+"-offline") != 0 {
@@ -30,6 +30,10 @@ func (e *Eng) drawScopes(mustOpenID bool, label string) []string {
 	}
 	if rapid.Bool().Draw(e.t, label+"-b") {
 		s = append(s, "b")
+	}
+	if rapid.IntRange(0, 4).Draw(e.t, label+"-offline_access") == 0 {
+		// a second registered refresh scope, whose name merely starts with the letters of "offline"
+		s = append(s, "offline_access")
 	}
 	return s
 }
@@ -67,6 +71,10 @@ func (e *Eng) actAuthorize() {
 	t := e.t
 	client := pick(t, e.clients, "client")
 	rtype := pick(t, e.cfg.Flows, "response_type")
+	if e.w.NoOIDC() && (len(strings.Fields(rtype)) != 1 || rtype == "id_token") {
+		// plain OAuth 2.0 sessions: the OpenID Connect response types are not on offer
+		rtype = "code"
+	}
 	needID := strings.Contains(rtype, "id_token")
 	scopes := e.drawScopes(needID, "scope")
 	aud := e.drawAud("aud")
@@ -241,10 +249,33 @@ func (e *Eng) actRedeem() {
 		reqForm.Set("client_id", g.Client)
 		e.label("redeem-public-basic-with-victim-client_id")
 	}
+	// now and then the store cannot answer a look-up of the code (lost connection, a serialization conflict between
+	// competing transactions): the request may fail, but whatever binds the code still binds it
+	lookupFailed := false
+	if e.cfg.Prop == "C02" && rapid.IntRange(0, 6).Draw(t, "codeLookupFails") == 0 {
+		ferr := pick(t, []error{errors.New("connection reset by peer"), fosite.ErrSerializationFailure, fosite.ErrSerializationFailure}, "lookupError")
+		nth, seen := rapid.IntRange(1, 2).Draw(t, "failingLookup"), 0
+		e.w.W.Before = func(c *h.Call) error {
+			if c.Method == "GetAuthorizeCodeSession" {
+				if seen++; seen == nth {
+					lookupFailed = true
+					return ferr
+				}
+			}
+			return nil
+		}
+	}
 	e.w.ResetCalls()
 	e.w.Record = true
 	tr := e.w.Token(reqForm, auth, h.TokenOpts{})
 	e.w.Record = false
+	e.w.W.Before = nil
+	if lookupFailed {
+		e.label("redeem-with-failing-code-lookup")
+		if len(reasons) > 0 {
+			e.label("ineligible-redeem-with-failing-code-lookup")
+		}
+	}
 	if !tr.OK() {
 		for _, c := range e.w.Calls {
 			if c.Method == "CreateAccessTokenSession" || c.Method == "CreateRefreshTokenSession" {
@@ -275,6 +306,17 @@ func (e *Eng) actRedeem() {
 			}
 		}
 		return false
+	}
+	if lookupFailed && !tr.OK() && !issued {
+		// the request failed on the store's error: nothing was issued, and the code is as usable as before. (Whether a
+		// replay was noticed before the failure is not determined.)
+		e.logf("  (a look-up of the code failed in the store)")
+		code.Fails++
+		if has("used") {
+			e.unspecFamily(g, "replay-with-failing-code-lookup")
+		}
+		e.invariant("C02/refused-attempt-changed-state")
+		return
 	}
 	if has("maybe-expired") {
 		// inside the ±2 s margin around the advertised expiry: only learn the outcome
@@ -417,7 +459,7 @@ func (e *Eng) actRefresh() {
 	}
 	if presenter == g.Client && cl != nil {
 		for _, s := range g.Scopes {
-			if !fosite.Arguments(cl.GetScopes()).Has(s) { // engine uses plain scope names: all strategies agree
+			if !hasExact(cl.GetScopes(), s) { // engine uses plain scope names (no dots, no wildcards): all strategies agree
 				reasons = append(reasons, "client-lost-scope")
 				break
 			}
@@ -851,7 +893,7 @@ func (e *Eng) actEditClient() {
 		c.Scopes, c.Audience, c.GrantTypes = full.Scopes, full.Audience, full.GrantTypes
 		e.logf("editClient %s restore", id)
 	case 1:
-		s := pick(t, []string{"a", "b", "offline", "openid"}, "dropScope")
+		s := pick(t, []string{"a", "b", "offline", "openid", "offline_access"}, "dropScope")
 		var n []string
 		for _, x := range c.Scopes {
 			if x != s {
